@@ -2,6 +2,7 @@ package main
 
 import (
 	"bufio"
+	"context"
 	"fmt"
 	"io"
 	"os"
@@ -34,8 +35,10 @@ type Solver struct {
 	Errors   []string
 	timeout  int
 	lines    chan string
-	Dead     bool
-	Timeouts int
+	Dead      bool
+	Timeouts  int
+	frames    [][]string
+	Fallbacks int
 }
 
 func NewSolver(kind string, timeoutMs int) (*Solver, error) {
@@ -175,10 +178,17 @@ func (s *Solver) ensureName(id string) {
 	s.raw(d.text + "\n")
 }
 
-func (s *Solver) Push() { s.raw("(push 1)\n"); s.level++ }
+func (s *Solver) Push() {
+	s.raw("(push 1)\n")
+	s.level++
+	s.frames = append(s.frames, nil)
+}
 func (s *Solver) Pop() {
 	s.raw("(pop 1)\n")
 	s.level--
+	if len(s.frames) > 0 {
+		s.frames = s.frames[:len(s.frames)-1]
+	}
 }
 func (s *Solver) PopTo(level int) {
 	for s.level > level {
@@ -192,6 +202,10 @@ func (s *Solver) Assert(t *Term) {
 	}
 	s.ensure(t.S)
 	s.raw("(assert " + t.S + ")\n")
+	if len(s.frames) == 0 {
+		s.frames = append(s.frames, nil)
+	}
+	s.frames[len(s.frames)-1] = append(s.frames[len(s.frames)-1], t.S)
 }
 
 // Check decides satisfiability of the current stack plus extra.
@@ -213,11 +227,134 @@ func (s *Solver) Check(extra ...*Term) SatResult {
 	}
 	s.raw("(check-sat)\n")
 	lines := s.sync()
+	if s.parseCheckQuiet(lines) == Unknown {
+		// frames already include the pushed extra assertions
+		if r, _ := s.fallback(nil); r != Unknown {
+			if n > 0 {
+				s.Pop()
+			}
+			s.Time += time.Since(t0)
+			return r
+		}
+	}
 	if n > 0 {
 		s.Pop()
 	}
-	s.Time += time.Since(t0)
+	dt := time.Since(t0)
+	s.Time += dt
+	if dt > 3*time.Second && os.Getenv("GOSX_SLOW") != "" {
+		fmt.Fprintf(os.Stderr, "SLOW query %.1fs result=%v\n", dt.Seconds(), lines)
+	}
 	return s.parseCheck(lines)
+}
+
+func (s *Solver) parseCheckQuiet(lines []string) SatResult {
+	for _, l := range lines {
+		switch {
+		case l == "sat":
+			return Sat
+		case l == "unsat":
+			return Unsat
+		}
+	}
+	return Unknown
+}
+
+// fallback re-decides the current assertion stack in a fresh process of the
+// other installed z3 (5.1.0) and, failing that, cvc5, with a longer timeout.
+// Used only when the primary solver answered unknown or had to be killed; an
+// answer from the fallback is a normal verdict.
+func (s *Solver) fallback(vals []*Term) (SatResult, []string) {
+	if os.Getenv("GOSX_NOFALLBACK") != "" {
+		return Unknown, nil
+	}
+	s.Fallbacks++
+	var asserts []string
+	for _, f := range s.frames {
+		asserts = append(asserts, f...)
+	}
+	var decls []string
+	seen := map[string]bool{}
+	var need func(id string)
+	need = func(id string) {
+		if seen[id] {
+			return
+		}
+		seen[id] = true
+		d := lookupDecl(id)
+		if d == nil {
+			return
+		}
+		for _, dep := range d.deps {
+			need(dep)
+		}
+		decls = append(decls, d.text)
+	}
+	for _, a := range asserts {
+		for _, id := range identsIn(a) {
+			need(id)
+		}
+	}
+	for _, v := range vals {
+		for _, id := range identsIn(v.S) {
+			need(id)
+		}
+	}
+	var sb strings.Builder
+	for _, d := range decls {
+		sb.WriteString(d)
+		sb.WriteByte('\n')
+	}
+	for _, a := range asserts {
+		sb.WriteString("(assert " + a + ")\n")
+	}
+	sb.WriteString("(check-sat)\n")
+	if len(vals) > 0 {
+		sb.WriteString("(get-value (")
+		for _, v := range vals {
+			sb.WriteString(v.S + " ")
+		}
+		sb.WriteString("))\n")
+	}
+	script := sb.String()
+	try := func(name string, args ...string) (SatResult, []string) {
+		ctx, cancel := context.WithTimeout(context.Background(), 150*time.Second)
+		defer cancel()
+		cmd := exec.CommandContext(ctx, name, args...)
+		cmd.Stdin = strings.NewReader(script)
+		out, _ := cmd.Output()
+		text := string(out)
+		if strings.Contains(text, "(error") {
+			return Unknown, nil
+		}
+		lines := strings.SplitN(strings.TrimSpace(text), "\n", 2)
+		switch strings.TrimSpace(lines[0]) {
+		case "unsat":
+			return Unsat, nil
+		case "sat":
+			if len(vals) == 0 {
+				return Sat, nil
+			}
+			if len(lines) < 2 {
+				return Unknown, nil
+			}
+			pairs := parseGetValue(lines[1])
+			if len(pairs) != len(vals) {
+				return Unknown, nil
+			}
+			return Sat, pairs
+		}
+		return Unknown, nil
+	}
+	if r, v := try("z3-new", "-in", "-smt2", "-T:120"); r != Unknown {
+		return r, v
+	}
+	if len(vals) == 0 {
+		if r, v := try("cvc5", "--lang=smt2", "--strings-exp", "--tlimit=120000"); r != Unknown {
+			return r, v
+		}
+	}
+	return Unknown, nil
 }
 
 func (s *Solver) parseCheck(lines []string) SatResult {
@@ -261,6 +398,13 @@ func (s *Solver) CheckModel(vals []*Term, extra ...*Term) (SatResult, []string) 
 	}
 	s.raw("(check-sat)\n")
 	lines := s.sync()
+	if s.parseCheckQuiet(lines) == Unknown {
+		if r, v := s.fallback(vals); r != Unknown {
+			s.Pop()
+			s.Time += time.Since(t0)
+			return r, v
+		}
+	}
 	r := s.parseCheck(lines)
 	var out []string
 	if r == Sat && len(vals) > 0 {
